@@ -26,6 +26,9 @@ impl ValProp {
             Which::C07 => {
                 pc.gen.max_args = 5;
                 pc.gen.max_depth = 2;
+                pc.gen.annos = true;
+                // few names: methods with a repeated name must still have their arguments checked
+                pc.gen.method_names = Some(vec!["f", "g", "h", "send", "get", "a1", "m", "n", "o", "p"]);
             }
             Which::C08 => {
                 pc.gen.max_depth = 4;
@@ -43,6 +46,8 @@ impl ValProp {
             Which::C10 => {
                 pc.gen.max_members = 6;
                 pc.gen.max_args = 2;
+                pc.gen.annos = true;
+                pc.gen.method_names = Some(vec!["f", "g", "h", "send", "get", "a1", "m", "n", "o", "p", "q", "r"]);
             }
         }
         pc
